@@ -494,8 +494,14 @@ def _validate_event_connectivity(
             f"The following events are produced but never consumed: {names}"
         )
 
-    return (
-        InputRequiredEvent in produced_events or HumanResponseEvent in consumed_events
+    # Subclasses count: InputRequiredEvent / HumanResponseEvent are meant to be
+    # subclassed, and a workflow using only subclasses is still human-in-the-loop.
+    return any(
+        isinstance(ev, type) and issubclass(ev, InputRequiredEvent)
+        for ev in produced_events
+    ) or any(
+        isinstance(ev, type) and issubclass(ev, HumanResponseEvent)
+        for ev in consumed_events
     )
 
 
